@@ -987,8 +987,10 @@ class parser(object):
                 res.hour = self._adjust_ampm(hour, info.ampm(tokens[idx + 2]))
                 idx += 1
             else:
-                # Year, month or day
-                ymd.append(value)
+                # Year, month or day. Keep the digits as written, so that a
+                # number of three or more digits ("0099") is known to be a
+                # year with its century, as in the other branches.
+                ymd.append(value_repr if value_repr.isdigit() else value)
             idx += 1
 
         elif info.ampm(tokens[idx + 1]) is not None and (0 <= value < 24):
